@@ -14,6 +14,7 @@ package verifrt
 import (
 	"fmt"
 	"os"
+	"runtime"
 )
 
 // AssumptionFailed is the panic value raised natively when an assumption
@@ -133,8 +134,9 @@ func ObserveBytes(label string, v []byte) {
 	cur.Observed = append(cur.Observed, fmt.Sprintf("%s=%q", label, string(v)))
 }
 
-// Yield is a scheduling point under the executor; a no-op natively.
-func Yield() {}
+// Yield is a scheduling point under the executor; natively it yields the
+// processor.
+func Yield() { runtime.Gosched() }
 
 // Thorough reports whether the thorough tier is being run (deeper bounds).
 func Thorough() bool { return thorough }
